@@ -2237,8 +2237,10 @@ impl Kanata {
             && self.macro_on_press_cancel_duration == 0
             && self.move_mouse_state_horizontal.is_none()
             && self.dynamic_macro_replay_state.is_none()
-            // The time between recorded events is counted in ticks: those ticks must run.
-            && self.dynamic_macro_record_state.is_none()
+            // The time between recorded events is counted in ticks: those ticks must run
+            // when the recorded delays are going to be used.
+            && (self.dynamic_macro_record_state.is_none()
+                || self.dynamic_macro_replay_behaviour.delay != ReplayDelayBehaviour::Recorded)
             && self.caps_word.is_none()
             && self.vkeys_pending_release.is_empty()
             // A key that kanata holds at the OS but that no layout state produces any more (its
